@@ -71,6 +71,8 @@ def run(idx: ProgramIndex, rep: Report, tier: str):
     own_batch_shape(idx, rep)
     sub_kernels_replaced_in_place(idx, rep)
     active_dims_order(idx, rep)
+    diag_not_reclassified_by_shape(idx, rep)
+    expand_shortcut_covers_members(idx, rep)
 
 
 # ---- C06-1 ---------------------------------------------------------------------------------------------------------
@@ -882,3 +884,51 @@ def active_dims_order(idx: ProgramIndex, rep: Report):
                     "`%s` selects the columns between two entries of active_dims: for a permuted list ([0, 2, 1, 3]) or one with repeats the columns come out in ascending order, so ARD lengthscale i scales another column than active_dims[i] (0.15-0.57 off for RBF / Matern / RQ with ARD)" % " ".join(src(bad[0]).split())[:70], {})
     rep.add("C06-13", "gpytorch:<functions that read active_dims>", "gpytorch/", True, "%d function(s) inspected" % n, {"functions": n}, trivial=True)
     rep.floor("C06-13", "functions that read active_dims", n, 5)
+
+
+# ---- C06-14 --------------------------------------------------------------------------------------------------------
+def diag_not_reclassified_by_shape(idx: ProgramIndex, rep: Report):
+    """Kernel.__call__(diag=True) asks forward for the diagonal and then decides FROM THE SHAPE OF THE RESULT whether forward honoured the
+    request ("did this kernel eat the diag option?"): a result with as many dimensions as x1 whose last two sizes are (n1, n2) is taken for a
+    full matrix and its diagonal is taken once more.  A correct diagonal of shape b x n with b = n (kernel batch size = number of points)
+    looks exactly like that; a full matrix with extra kernel batch dimensions looks like a diagonal.  Whether the diagonal was computed is a
+    fact about the callee, not about shapes."""
+    rep.rule("C06-14", "the diagonal returned by forward(diag=True) is not re-classified from its shape: no second diagonal under a test of res.dim() / res.shape against the input sizes")
+    K = kernel_cls(idx)
+    fi = idx.method(K, "__call__", own=True)
+    sites = []
+    for node in ast.walk(fi.node):
+        if isinstance(node, ast.If) and ("shape" in src(node.test) or ".dim()" in src(node.test) or ".size(" in src(node.test)):
+            for c in ast.walk(node):
+                if isinstance(c, ast.Call) and isinstance(c.func, ast.Attribute) and c.func.attr in ("diagonal", "diag") and any("diag" in src(g) for g in _guards_around(fi.node, node)):
+                    sites.append((node, c))
+    ok = not sites
+    rep.add("C06-14", "%s:Kernel.__call__[diag decided from the shape of the result]" % K.module.name, ("%s:%d" % (fi.module.relpath, sites[0][0].lineno)) if sites else fi.where, ok,
+            "no shape test decides whether the diagonal is taken again" if ok else
+            "`if %s: ... %s` takes the diagonal of forward's result whenever the result LOOKS like a full matrix: RBFKernel(batch_shape=[3])(x1, x2, diag=True) with n = 3 points returns shape (3,) instead of (3, 3) (diagonal taken twice; n = 4 is right), IndexKernel(batch_shape=[2])(i, diag=True) returns the full 2 x n x n matrix; products of the two raise" % (" ".join(src(sites[0][0].test).split())[:80], " ".join(src(sites[0][1]).split())[:40]), {})
+    rep.floor("C06-14", "diag post-processing of Kernel.__call__", 1, 1)
+
+
+# ---- C06-15 --------------------------------------------------------------------------------------------------------
+def expand_shortcut_covers_members(idx: ProgramIndex, rep: Report):
+    """Kernel.batch_shape is the BROADCAST of the kernel's own batch shape and its members'.  expand_batch returns self when the requested
+    shape equals that broadcast shape - but then members with a smaller batch shape stay as they are, and the caller
+    (LazyEvaluatedKernelTensor._getitem's fallback: expand, then index every member with the full index) indexes them out of range."""
+    rep.rule("C06-15", "the 'nothing to do' shortcut of Kernel.expand_batch compares the requested shape with the batch shape of every member (and the kernel's own), not only with their broadcast")
+    K = kernel_cls(idx)
+    fi = idx.method(K, "expand_batch", own=True)
+    shortcuts = []
+    for node in ast.walk(fi.node):
+        if isinstance(node, ast.If) and any(isinstance(st, ast.Return) and st.value is not None and src(st.value) == fi.params[0] for st in node.body):
+            shortcuts.append(node)
+    if not shortcuts:
+        raise AnalysisError("C06-15: Kernel.expand_batch has no early return of self any more (anchor)")
+    n = 0
+    for sc in shortcuts:
+        n += 1
+        t = src(sc.test)
+        per_member = "sub_kernels" in t or "all(" in t or "any(" in t
+        rep.add("C06-15", "%s:Kernel.expand_batch[shortcut]" % K.module.name, "%s:%d" % (fi.module.relpath, sc.lineno), per_member,
+                "the shortcut looks at the members' batch shapes" if per_member else
+                "`if %s: return self`: the compared shape is the broadcast over the kernel and its members; ScaleKernel(RBFKernel(batch_shape=[2]), batch_shape=[3, 2]).expand_batch([3, 2]) returns self with the member still at [2], so kernel(x)[1] (expand, then index every member with the full index) raises IndexError - also for sums / products / MultitaskKernel with mixed member batch shapes" % " ".join(t.split())[:60], {})
+    rep.floor("C06-15", "early returns of expand_batch", n, 1)
